@@ -62,37 +62,38 @@ type runState struct {
 	sents     []error
 	errsVal   []*dag.Errors // per task: the *Errors value returned by "errs0"/"errs1" attempts
 
-	entries    []entryEv
-	attempts   [][]int
-	finalRes   [][]string // result of the last finished attempt ("" = none finished)
-	exitVC     [][]simrt.VC
-	exitSeq    [][]uint64 // sequence number of the latest exit per task
-	inFn       [][]bool
-	executing  []int
-	lastExitVC []simrt.VC // per graph: clock of the latest task exit (serial HB)
-	taskActive [][2]int   // per *Task object (id, primary/alternate), across graphs
-	runErr     []error
-	returned   []bool
-	retSeq     []uint64
-	snapAtt    [][]int    // per graph: attempts at the moment Run returned
-	snapFinal  [][]string // ... last finished results
-	snapInFn   [][]bool   // ... functions still executing
-	snapNEnt   []int      // ... number of entries so far
-	obsSeq     []uint64   // per graph: first fired foreign receive on the goroutine that called Run
-	dfs        [][]string
-	dfsErr     []error
-	again      bool   // the Run being judged is a repetition on an unchanged graph
-	lockProbe  string // the Task the post-run lock probe is waiting for ("" = not probing)
-	cancelSeq  uint64 // first cancel() issued
-	cancelSlp  []int  // per graph: sleeps the Run goroutine had started when cancel() was issued
-	retSlp     []int  // ... when Run returned
-	cancelPre  bool   // cancel() was issued before any Run was called
-	failSeq    uint64 // first final failure
-	writes     []bytes.Buffer
-	inWrite    []bool
-	nWrites    int
-	hist       uint64
-	logLines   int
+	entries      []entryEv
+	attempts     [][]int
+	finalRes     [][]string // result of the last finished attempt ("" = none finished)
+	exitVC       [][]simrt.VC
+	exitSeq      [][]uint64 // sequence number of the latest exit per task
+	inFn         [][]bool
+	executing    []int
+	lastExitVC   []simrt.VC // per graph: clock of the latest task exit (serial HB)
+	taskActive   [][2]int   // per *Task object (id, primary/alternate), across graphs
+	runErr       []error
+	returned     []bool
+	retSeq       []uint64
+	snapAtt      [][]int    // per graph: attempts at the moment Run returned
+	snapFinal    [][]string // ... last finished results
+	snapInFn     [][]bool   // ... functions still executing
+	snapNEnt     []int      // ... number of entries so far
+	obsSeq       []uint64   // per graph: first fired foreign receive on the goroutine that called Run
+	dfs          [][]string
+	dfsErr       []error
+	again        bool   // the Run being judged is a repetition on an unchanged graph
+	lockProbe    string // the Task the post-run lock probe is waiting for ("" = not probing)
+	cancelSeq    uint64 // first cancel() issued
+	cancelSlp    []int  // per graph: sleeps the Run goroutine had started when cancel() was issued
+	retSlp       []int  // ... when Run returned
+	cancelPre    bool   // cancel() was issued before any Run was called
+	failSeq      uint64 // first final failure
+	writes       []bytes.Buffer
+	inWrite      []bool
+	nWrites      int
+	failedWrites int
+	hist         uint64
+	logLines     int
 }
 
 func (r *runState) fail(prop, oracle string, seq uint64, f string, a ...interface{}) {
@@ -161,6 +162,19 @@ func (w *simWriter) Write(p []byte) (int, error) {
 	r.inWrite[w.g] = true
 	r.nWrites++
 	total := len(p)
+	if r.sc.Writer.ErrFrom > 0 && r.nWrites >= r.sc.Writer.ErrFrom {
+		// the sink is gone (closed pipe): nothing is consumed, now and for ever
+		r.failedWrites++
+		r.res.Faults["writer_error"]++
+		r.inWrite[w.g] = false
+		if r.failedWrites == spinLimit {
+			r.fail("C16", "O16a", seq, "g%d: the output writer has rejected %d consecutive writes and is still being called: a task goroutine spins on the failing writer, its vertex never completes and Run never returns", w.g, spinLimit)
+			simrt.Unlock()
+			panic(spinAbort{})
+		}
+		simrt.Unlock()
+		return 0, errors.New("write on closed pipe (injected)")
+	}
 	if r.sc.Writer.Yield {
 		r.res.Faults["writer_yield"]++
 		simrt.Unlock()
@@ -197,6 +211,14 @@ func (d deadlineCtx) Err() error {
 func (d deadlineCtx) Deadline() (time.Time, bool) {
 	return time.Date(2026, 1, 2, 0, 0, 0, 0, time.UTC), true
 }
+
+// spinLimit: this many consecutive rejected writes mean somebody retries a persistently failing
+// write in a loop (each retry is a few scheduler steps; the run would otherwise hit the step cap).
+const spinLimit = 5000
+
+type spinAbort struct{}
+
+func (spinAbort) String() string { return "spin-abort: the run is stopped after the spin was reported" }
 
 type logSink struct{ r *runState }
 
@@ -299,6 +321,7 @@ func Execute(sc *Scenario, ch simrt.Chooser, keepTrace bool) *Result {
 	cfg := simrt.Config{
 		Chooser:      ch,
 		ClockAdvance: sc.Policy.ClockP > 0,
+		YieldOnMake:  true,
 		MapBase:      sc.MapBase,
 		KeepTrace:    keepTrace,
 		OnSettled:    r.onSettled,
@@ -553,6 +576,13 @@ func (r *runState) main() {
 	if sc.Cancel.Deadline {
 		ctx = deadlineCtx{ctx}
 	}
+	if sc.OuterBuf {
+		// as if this Run were started by a task of an outer, buffering graph: the context already
+		// carries that graph's buffers
+		outer := &bytes.Buffer{}
+		ctx = context.WithValue(ctx, dag.ContextKey("StdoutBuffer"), outer)
+		ctx = context.WithValue(ctx, dag.ContextKey("StderrBuffer"), outer)
+	}
 
 	var tm *dag.TaskMap
 	if sc.UseTaskMap {
@@ -573,7 +603,11 @@ func (r *runState) main() {
 	graphs := make([]*dag.Graph, ng)
 	var applyCalls func(gr *dag.Graph, g int, calls []Call)
 	for g := 0; g < ng; g++ {
-		gr := dag.NewGraph(fmt.Sprintf("g%d", g))
+		gname := fmt.Sprintf("g%d", g)
+		if sc.IDScheme == 3 {
+			gname += " 100%d%"
+		}
+		gr := dag.NewGraph(gname)
 		gr.TickerDuration = time.Duration(sc.TickNS)
 		gr.UseColor = sc.UseColor
 		if sc.Serial && !sc.SerialLast {
@@ -824,6 +858,8 @@ func (r *runState) id(i int) string {
 		return "t" + strings.Repeat("x", i)
 	case 2: // unusual characters
 		return fmt.Sprintf("task %d/ü:\"%d\"", i, i)
+	case 3: // characters that mean something to fmt
+		return fmt.Sprintf("cov>=%d%%_%%s%%w", 80+i)
 	}
 	return fmt.Sprintf("t%02d", i)
 }
@@ -863,6 +899,9 @@ func (r *runState) posthoc() {
 	if res.Verdict == simrt.VPanic {
 		if strings.Contains(res.PanicMsg, "simrt: unsupported") || strings.HasPrefix(res.PanicMsg, "simrt:") {
 			return // machinery trouble, handled by the caller (exit 2)
+		}
+		if strings.HasPrefix(res.PanicMsg, "spin-abort") {
+			return // the harness stopped the run itself after reporting a spin on the failing writer
 		}
 		first := res.PanicMsg
 		if i := strings.Index(first, "\n"); i > 0 {
@@ -1112,7 +1151,7 @@ func (r *runState) posthocGraph(g int, final bool) {
 		r.fail("C14", "O14e", r.retSeq[g], "g%d: the context was cancelled before Run was called, yet Run returned nil", g)
 	}
 	// O15d buffered output
-	if sc.Buffer && final && res.Verdict == simrt.VOK {
+	if sc.Buffer && final && res.Verdict == simrt.VOK && sc.Writer.ErrFrom == 0 {
 		out := r.writes[g].String()
 		for _, e := range r.entries {
 			if e.graph != g {
